@@ -1,6 +1,6 @@
 #!/bin/bash
 # runall.sh [tier] : run every claimed check once, print one line each
-cd /verif
+cd "$(dirname "$0")/.."
 tier=${1:-quick}
 for p in $(python3 -c "
 import sys; sys.path.insert(0,'lib')
